@@ -52,7 +52,7 @@ TECHNIQUE = (
     "all-pairs/all-triples enumeration plus seeded random operand triples, judged by the canonical serialiser"
 )
 LEVEL_TEXT = (
-    "cmp_expr is executed on all ordered pairs of a curated pool of ~330 operands covering every terminal class and "
+    "cmp_expr is executed on all ordered pairs of a curated pool of ~430 operands covering every terminal class and "
     "operator family (antisymmetry, transitivity over all triples of the pool) and on random operand lists drawn "
     "through the public API together with one-datum mutants and rebuilt equal copies; every compatible pair is "
     "fed to +, * and inner in both orders and the two results are compared by an independent serialiser. "
@@ -80,31 +80,37 @@ ASSUMPTIONS = [
     "identity)",
     "cmp_expr raising on two valid operand expressions is counted as a violation of totality",
 ]
-BUDGET = {"quick": 55, "thorough": 400}
-NCASES = {"quick": 6400, "thorough": 96000}
+BUDGET = {"quick": 55, "thorough": 330}
+NCASES = {"quick": 6400, "thorough": 64000}
 WORKERS = {"quick": 16, "thorough": 16}
 EVAL_COUNTER = "constructor_pairs"
 FLOORS = {
     "quick": {
-        "cmp_pairs": 60000,
-        "sum_checked": 6000,
-        "product_checked": 12000,
-        "inner_checked": 1500,
-        "triples_transitivity": 1000000,
-        "sorted_triples": 15000,
+        "cmp_pairs": 110000,
+        "sum_checked": 50000,
+        "product_checked": 50000,
+        "inner_checked": 8000,
+        "inner-scalar_checked": 50000,
+        "triples_transitivity": 60000000,
+        "sorted_triples": 50000,
+        "sorted_lists": 1000,
         "equal_copy_pairs": 3000,
-        "one_datum_pairs": 2500,
+        "one_datum_pairs": 5000,
+        "pyscalar_pairs": 2000,
         "pool_terminal_classes": 20,
     },
     "thorough": {
-        "cmp_pairs": 500000,
-        "sum_checked": 60000,
-        "product_checked": 100000,
-        "inner_checked": 15000,
-        "triples_transitivity": 10000000,
-        "sorted_triples": 150000,
-        "equal_copy_pairs": 40000,
+        "cmp_pairs": 300000,
+        "sum_checked": 200000,
+        "product_checked": 200000,
+        "inner_checked": 40000,
+        "inner-scalar_checked": 200000,
+        "triples_transitivity": 80000000,
+        "sorted_triples": 500000,
+        "sorted_lists": 10000,
+        "equal_copy_pairs": 20000,
         "one_datum_pairs": 30000,
+        "pyscalar_pairs": 2000,
         "pool_terminal_classes": 20,
     },
 }
@@ -122,6 +128,21 @@ COVER_FLOORS = {
 
 # --------------------------------------------------------------------------------------------
 # small helpers
+
+
+PER_KEY = 6  # the runner keeps at most 200 violations per worker: one frequent mechanism must not hide the others
+
+
+def report(ctx, key, desc, detail=None):
+    seen = getattr(ctx, "_c29_keys", None)
+    if seen is None:
+        if not hasattr(ctx, "distinct"):  # the quiet stand-in
+            return
+        seen = ctx._c29_keys = {}
+    seen[key] = seen.get(key, 0) + 1
+    ctx.count("violating_events")
+    if seen[key] <= PER_KEY:
+        ctx.violation(key, desc, detail)
 
 
 def S(e, n=260):
@@ -368,7 +389,7 @@ def do_cmp(ctx, a, b, where):
         y = cmp_expr(b, a)
     except Exception as ex:
         ctx.count("cmp_raised")
-        ctx.violation(
+        report(ctx, 
             f"C29/cmp-raises/{type(ex).__name__}/{diff_class(a, b)}",
             f"cmp_expr raises {type(ex).__name__}: {ex} on a={S(a)} b={S(b)}",
             {"a": repr(a)[:1500], "b": repr(b)[:1500], "where": where},
@@ -376,10 +397,10 @@ def do_cmp(ctx, a, b, where):
         return None
     ctx.count("cmp_pairs")
     if x not in (-1, 0, 1) or y not in (-1, 0, 1):
-        ctx.violation("C29/cmp-range", f"cmp_expr returned {x!r}/{y!r} on a={S(a)} b={S(b)}")
+        report(ctx, "C29/cmp-range", f"cmp_expr returned {x!r}/{y!r} on a={S(a)} b={S(b)}")
         return None
     if x != -y:
-        ctx.violation(
+        report(ctx, 
             f"C29/cmp-not-antisymmetric/{diff_class(a, b)}",
             f"cmp_expr(a,b)={x} but cmp_expr(b,a)={y} for a={S(a)} b={S(b)}",
             {"a": repr(a)[:1500], "b": repr(b)[:1500], "where": where},
@@ -432,7 +453,7 @@ def judge(ctx, kind, a, b, cm, dist, canons, tag, dpair=None):
             else:
                 ctx.count(kind + "_rejected_both_orders")
             return
-        ctx.violation(
+        report(ctx, 
             f"C29/{kind}-raises-in-one-order-only/{diff_class(a, b)}",
             f"{kind}: one order raises ({exc[0]!r} / {exc[1]!r}) for a={S(a)} b={S(b)}",
             {"a": repr(a)[:1500], "b": repr(b)[:1500], "tag": tag},
@@ -463,7 +484,7 @@ def judge(ctx, kind, a, b, cm, dist, canons, tag, dpair=None):
         eq_a = bool(r1 == r2)
         eq_b = bool(r2 == r1)
     if eq_a != same or eq_b != same:
-        ctx.violation(
+        report(ctx, 
             f"C29/ufl-eq-disagrees-with-canon/{kind}/{diff_class(da, db)}",
             f"{kind}: UFL == says {eq_a}/{eq_b} but canonical serialisations {'agree' if same else 'differ'}; a={S(a)} b={S(b)}",
             {"a": repr(a)[:1500], "b": repr(b)[:1500], "r1": repr(r1)[:1500], "r2": repr(r2)[:1500], "tag": tag},
@@ -479,14 +500,15 @@ def judge(ctx, kind, a, b, cm, dist, canons, tag, dpair=None):
     if tag and tag[0] == "mutant":
         ctx.count("one_datum_" + kind)
     if not same:
-        ctx.violation(
+        report(ctx, 
             f"C29/{kind}-order-dependent/{cause_of(cm)}/{diff_class(da, db)}",
             f"{kind} of distinguishable operands depends on the order (cmp_expr both ways = {cm}): a={S(a)}  b={S(b)}  "
             f"first order -> {S(r1)}  second order -> {S(r2)}",
             {"a": repr(a)[:1500], "b": repr(b)[:1500], "r1": repr(r1)[:2000], "r2": repr(r2)[:2000], "tag": tag},
         )
-    elif (ctx.counters.get(kind + "_checked", 0) % 397) == 1:
-        ctx.sample({"constructor": kind, "a": S(a, 120), "b": S(b, 120), "cmp": list(cm) if cm else None, "result": S(r1, 200)}, limit=5)
+    elif len(ctx.samples) < 3 and (ctx.counters.get(kind + "_checked", 0) % 97) == 1 and not (a._ufl_is_terminal_ or b._ufl_is_terminal_):
+        ctx.sample({"constructor": kind, "a": S(a, 120), "b": S(b, 120), "cmp_expr(a,b),(b,a)": list(cm) if cm else None,
+                    "both orders give": S(r1, 200)}, limit=3)
 
 
 def pair_events(ctx, a, b, cm, tag):
@@ -530,6 +552,8 @@ def transitivity(ctx, items, M, rows, where):
         bad = reach & ~le[a] & ok[a]
         ctx.count("triples_transitivity", n * n)
         if bad.any():
+            ctx.count("intransitive_pairs_a_c", int(bad.sum()))
+        if bad.any() and reported <= 12:
             for c in np.nonzero(bad)[0]:
                 bs = np.nonzero(le[a] & le[:, c])[0]
                 b = int(bs[0])
@@ -538,14 +562,14 @@ def transitivity(ctx, items, M, rows, where):
                     if M[p][q] == 0:
                         ties.append(diff_class(items[p], items[q]))
                 key = "C29/cmp-not-transitive/" + triple_cause((items[a], items[b], items[int(c)]), ties)
-                ctx.violation(
+                report(ctx, 
                     key,
                     f"cmp_expr: a<=b ({M[a][b]}), b<=c ({M[b][int(c)]}) but cmp(a,c)={M[a][int(c)]}: a={S(items[a], 150)} b={S(items[b], 150)} c={S(items[int(c)], 150)}",
                     {"a": repr(items[a])[:1200], "b": repr(items[b])[:1200], "c": repr(items[int(c)])[:1200], "where": where},
                 )
                 reported += 1
-                if reported > 20:
-                    return
+                if reported > 12:
+                    break
 
 
 def sorted_triple(ctx, t, where):
@@ -555,12 +579,12 @@ def sorted_triple(ctx, t, where):
         try:
             outs.append(tuple(id(x) for x in sorted_expr(p)))
         except Exception as ex:
-            ctx.violation(f"C29/sorted_expr-raises/{type(ex).__name__}", f"sorted_expr raises {ex!r} on {[S(x, 80) for x in p]}")
+            report(ctx, f"C29/sorted_expr-raises/{type(ex).__name__}", f"sorted_expr raises {ex!r} on {[S(x, 80) for x in p]}")
             return
     ctx.count("sorted_triples")
     if len(set(outs)) != 1:
         a, b, c = t
-        ctx.violation(
+        report(ctx, 
             "C29/sorted_expr-depends-on-input-order/" + triple_cause(t),
             f"sorted_expr gives {len(set(outs))} different orders for the 6 permutations of a={S(a, 120)} b={S(b, 120)} c={S(c, 120)}",
             {"a": repr(a)[:1200], "b": repr(b)[:1200], "c": repr(c)[:1200], "where": where},
@@ -586,12 +610,12 @@ def sorted_list(ctx, items, rng, where):
             ctx.count("sorted_list_raised")
             return
         if not asc:
-            ctx.violation("C29/sorted_expr-not-ascending", f"sorted_expr output not ascending w.r.t. cmp_expr: {[S(x, 60) for x in out]}", {"where": where})
+            report(ctx, "C29/sorted_expr-not-ascending", f"sorted_expr output not ascending w.r.t. cmp_expr: {[S(x, 60) for x in out]}", {"where": where})
             return
         if allnz:
             outs.append(tuple(id(x) for x in out))
     if len(set(outs)) > 1:
-        ctx.violation(
+        report(ctx, 
             "C29/sorted_expr-depends-on-input-order/" + triple_cause(items),
             f"sorted_expr of {len(items)} pairwise non-tied expressions depends on the input order: {[S(x, 60) for x in items]}",
             {"where": where},
@@ -614,7 +638,7 @@ def equal_copy(ctx, a, where):
     cm = do_cmp(ctx, a, a2, where)
     ctx.count("equal_copy_pairs")
     if cm is not None and cm != (0, 0):
-        ctx.violation(
+        report(ctx, 
             "C29/cmp-nonzero-on-equal-expressions/" + type(a).__name__ if a._ufl_is_terminal_ else "C29/cmp-nonzero-on-equal-expressions/operator",
             f"cmp_expr = {cm} on two equal expressions built from distinct objects: {S(a)}",
             {"a": repr(a)[:1500], "where": where},
@@ -825,11 +849,11 @@ def once(ctx):
                     r = cmp_expr(items[a], items[a])
                 except Exception as ex:
                     r = None
-                    c.violation(f"C29/cmp-raises/{type(ex).__name__}/self", f"cmp_expr(a, a) raises {ex!r} for {S(items[a])}")
+                    report(c, f"C29/cmp-raises/{type(ex).__name__}/self", f"cmp_expr(a, a) raises {ex!r} for {S(items[a])}")
                 M[a][a] = r
                 c.count("cmp_reflexive")
                 if r not in (0, None):
-                    c.violation("C29/cmp-not-reflexive", f"cmp_expr(a, a) = {r} for a={S(items[a])}")
+                    report(c, "C29/cmp-not-reflexive", f"cmp_expr(a, a) = {r} for a={S(items[a])}")
                 continue
             cm = do_cmp(c, items[a], items[b], f"pool {names[a]} / {names[b]}")
             if cm is not None:
@@ -877,7 +901,7 @@ def once(ctx):
                     continue
                 ctx.count("pyscalar_pairs")
                 if canon(r1, "abs") != canon(r2, "abs") or not (r1 == r2):
-                    ctx.violation(
+                    report(ctx, 
                         f"C29/{kind}-order-dependent/python-scalar",
                         f"{pv!r} {'+' if kind == 'sum' else '*'} e differs from e {'+' if kind == 'sum' else '*'} {pv!r} for e={S(e)}: {S(r1)} vs {S(r2)}",
                     )
@@ -951,6 +975,18 @@ def case(ctx, i, rng):
         return
     ctx.count("cases_" + kind)
     a, b, c = ops
+    if kind == "scalar" and rng.random() < 0.25:
+        # operands linear in test/trial functions (arguments of equal and of different numbers)
+        names = U.spaces_with_shape(())
+        try:
+            v0 = U.arg(rng.choice(names), 0)
+            v1 = U.arg(rng.choice(names), rng.choice([0, 1]))
+            if U.interior:
+                v0, v1 = v0(rng.choice("+-")), v1(rng.choice("+-"))
+            a, b, c = a * v0, b * v1, c * v0
+            ctx.count("cases_with_arguments")
+        except Exception:
+            a, b, c = ops
     lst = [a, b, c]
     tags = [("gen", kind)] * 3
     # one-datum mutants of a and of b
@@ -985,7 +1021,7 @@ def case(ctx, i, rng):
             M[p][p] = None
         ctx.count("cmp_reflexive")
         if M[p][p] not in (0, None):
-            ctx.violation("C29/cmp-not-reflexive", f"cmp_expr(a, a) = {M[p][p]} for a={S(lst[p])}")
+            report(ctx, "C29/cmp-not-reflexive", f"cmp_expr(a, a) = {M[p][p]} for a={S(lst[p])}")
         for q in range(p + 1, n):
             cm = do_cmp(ctx, lst[p], lst[q], "case")
             if cm is not None:
@@ -1015,4 +1051,4 @@ def case(ctx, i, rng):
     if cp is not None:
         pair_events(ctx, a, cp[0], cp[1], ("copy", kind))
     if i % 251 == 0:
-        ctx.sample({"case": i, "kind": kind, "a": S(a, 140), "b": S(b, 140), "cmp(a,b)": M[0][1], "sizes": [tree_size(e) for e in lst]}, limit=2)
+        ctx.sample({"random case": i, "kind": kind, "a": S(a, 140), "b": S(b, 140), "cmp(a,b)": M[0][1], "tree sizes of the operand list": [tree_size(e) for e in lst]}, limit=5)
